@@ -16,7 +16,7 @@ For each change:
 1. Make the edit in the worktree. Run the full test-suite exactly like this and make sure it passes with the same counts as the unmodified tree (2927 passed):
    cd {wt} && PYTHONPATH={wt}/src /venv/bin/python -m pytest -q -p no:cacheprovider --timeout=900 --continue-on-collection-errors -n 8 2>&1 | tail -3
    (if you edit a .pyx/.cpp file under src/TotalDepth/LIS/core/src you must rebuild in the worktree: cd {wt} && /venv/bin/python setup.py build_ext --inplace)
-2. Write a small demonstration program /tmp/{pid.lower()}_demo/demo_A.py (resp. demo_B.py) that uses the public API, exits 0 when the property holds and exits 1 (printing what went wrong) when it is violated. Run it as `PYTHONPATH={wt}/src /venv/bin/python /tmp/{pid.lower()}_demo/demo_A.py`: it must FAIL with your change and PASS on the unmodified code (check with `git stash` / `git stash pop`, or `git diff > patch; git checkout -- .`). The demo must build its inputs itself (or use files under {wt}/example_data) and be deterministic.
+2. Write a small demonstration program /tmp/{pid.lower()}_demo/demo_A.py (resp. demo_B.py) that uses the public API, exits 0 when the property holds and exits 1 (printing what went wrong) when it is violated. Run it as `PYTHONPATH={wt}/src /venv/bin/python /tmp/{pid.lower()}_demo/demo_A.py`: it must FAIL with your change and PASS on the unmodified code (check with `git diff > patch; git checkout -- .; ...; git apply patch` - NEVER use `git stash`: the stash is shared between all worktrees of the repository and other people are working in sibling worktrees). The demo must build its inputs itself (or use files under {wt}/example_data) and be deterministic.
 3. Save the change as /tmp/{pid.lower()}_demo/patch_A.diff (resp. patch_B.diff) with `git -C {wt} diff > ...`, then `git -C {wt} checkout -- .` before starting the next one. Each patch must apply to the clean tree on its own.
 
 Finish with the worktree clean (git -C {wt} status shows no modifications). Your final message: for A and B, a two-line description of the change, what exactly is needed to manifest it (the input / sequence / option combination), the test-suite result line, and the demo's output with and without the change.""")
